@@ -258,6 +258,8 @@ func runCheck(cmd, id, repo, verif, tier string, keep bool, only string, verbose
 	exit := 0
 	nDis, nObl := 0, 0
 	var violations []string
+	var inconclusive []string
+	var knownSeen []string
 	solverCount := map[string]int{}
 	var solverSecs float64
 	present := map[string]*Obligation{}
@@ -269,8 +271,10 @@ func runCheck(cmd, id, repo, verif, tier string, keep bool, only string, verbose
 		kf := isKnown(o.name)
 		counted := !haveClaim || claimed.Obligations[o.name] != "" || hasKey(claimed.Obligations, o.name)
 		if kf != nil {
-			if o.status == "failed" {
+			if o.status == "failed" || o.status == "undecided" {
+				// (with quantified axioms in scope the solvers answer unknown rather than sat)
 				fmt.Printf("KNOWN-FINDING: property=%s %s %s\n", id, o.name, kf.What)
+				knownSeen = append(knownSeen, o.name)
 			} else if o.status == "discharged" {
 				fmt.Printf("note: known finding %s no longer fails (%s)\n", o.name, o.status)
 			}
@@ -281,6 +285,12 @@ func runCheck(cmd, id, repo, verif, tier string, keep bool, only string, verbose
 			if verbose {
 				fmt.Printf("unclaimed %s: %s\n", o.status, o.name)
 			}
+			continue
+		}
+		if o.kind == "vacuity" && o.status == "undecided" {
+			// satisfiability of quantified assumption sets is often not decided by the solvers; a
+			// vacuity check only fails when the assumptions are refuted (unsat)
+			inconclusive = append(inconclusive, o.name)
 			continue
 		}
 		nObl++
@@ -339,12 +349,20 @@ func runCheck(cmd, id, repo, verif, tier string, keep bool, only string, verbose
 		fmt.Println("UNDECIDED: no obligations generated for", id)
 		exit = 2
 	}
-	writeEvidence(eng, verif, id, tier, seed, results, all, nObl, nDis, len(violations), solverCount, solverSecs, slow, samples, structural, missing, time.Since(t0).Seconds(), tLoad, tGen, haveClaim)
+	writeEvidence(eng, verif, id, tier, seed, results, all, nObl, nDis, len(violations), solverCount, solverSecs, slow, samples, structural, missing, time.Since(t0).Seconds(), tLoad, tGen, haveClaim, append(inconclusive, prefixAll("known-finding:", knownSeen)...))
 	fmt.Printf("%s: %d obligations, %d discharged, %d violations, load %.1fs gen %.1fs total %.1fs\n", id, nObl, nDis, len(violations), tLoad, tGen, time.Since(t0).Seconds())
 	return exit
 }
 
 func hasKey(m map[string]string, k string) bool { _, ok := m[k]; return ok }
+
+func prefixAll(p string, xs []string) []string {
+	var out []string
+	for _, x := range xs {
+		out = append(out, p+x)
+	}
+	return out
+}
 
 func maxInt(a, b int) int {
 	if a > b {
@@ -388,7 +406,7 @@ func writeReplay(eng *Engine, dir, id string, o *Obligation) string {
 }
 
 func writeEvidence(eng *Engine, verif, id, tier string, seed int, results []*FuncResult, all []*Obligation, nObl, nDis, nViol int,
-	solverCount map[string]int, solverSecs float64, slow []*Obligation, samples []map[string]interface{}, structural, missing []string, wall, tLoad, tGen float64, haveClaim bool) {
+	solverCount map[string]int, solverSecs float64, slow []*Obligation, samples []map[string]interface{}, structural, missing []string, wall, tLoad, tGen float64, haveClaim bool, inconclusive []string) {
 	var funcs, inlined, opaque, trusted, notes []string
 	seenI, seenO, seenT, seenN := map[string]bool{}, map[string]bool{}, map[string]bool{}, map[string]bool{}
 	for _, r := range results {
@@ -485,6 +503,7 @@ func writeEvidence(eng *Engine, verif, id, tier string, seed int, results []*Fun
 			"structural_failures":      structural,
 			"claimed_not_generated":    missing,
 			"claimed_set_present":      haveClaim,
+			"vacuity_inconclusive":     inconclusive,
 			"machine_integers":         "exact 8/16/32/64-bit vectors; unbounded integers only as math/big values and in wide() spec terms",
 		},
 	}
